@@ -7,6 +7,7 @@ package main
 import (
 	"fmt"
 	"os"
+	"sort"
 	"strings"
 	"unicode/utf8"
 
@@ -365,7 +366,19 @@ type hsys struct {
 
 func (s *hsys) Close() { s.r.s.Fini() }
 func (s *hsys) Key() string {
-	return tcell.VerifScreenDump(s.r.s) + fmt.Sprint(s.cur, string(s.r.rowText(0)))
+	var fb []string
+	for k, v := range s.r.fb {
+		if tcell.RuneFallbacks[k] != v {
+			fb = append(fb, fmt.Sprintf("%d=%s", k, v))
+		}
+	}
+	for k := range tcell.RuneFallbacks {
+		if _, ok := s.r.fb[k]; !ok {
+			fb = append(fb, fmt.Sprintf("-%d", k))
+		}
+	}
+	sort.Strings(fb)
+	return tcell.VerifScreenDump(s.r.s) + fmt.Sprint(s.cur, string(s.r.rowText(0)), fb)
 }
 func (s *hsys) Apply(i int) (string, string) {
 	o := s.ops[i]
